@@ -847,6 +847,7 @@ func (p *Parser) parsePoryswitchTextStatement() (string, string, error) {
 	strTypeValue := strTypeCases[switchValue]
 	strValue, ok := cases[switchValue]
 	if !ok {
+		strTypeValue = strTypeCases["_"]
 		strValue, ok = cases["_"]
 		if !ok && p.enableEnvironmentErrors {
 			return "", "", NewParseError(startToken, fmt.Sprintf("no poryswitch case found for '%s=%s', which was specified with the '-s' option", switchCase, switchValue))
